@@ -547,6 +547,12 @@ func (l *IPFSLog) Join(otherLog iface.IPFSLog, size int) (iface.IPFSLog, error) 
 	wg := &sync.WaitGroup{}
 	wg.Add(newItems.Len())
 	var err error
+	var muErr sync.Mutex
+	setErr := func(e error) {
+		muErr.Lock()
+		err = e
+		muErr.Unlock()
+	}
 
 	// TODO: use l.concurrency ?
 	for _, k := range newItems.Keys() {
@@ -555,17 +561,17 @@ func (l *IPFSLog) Join(otherLog iface.IPFSLog, size int) (iface.IPFSLog, error) 
 
 			e := newItems.UnsafeGet(k)
 			if e == nil || !e.Defined() {
-				err = errmsg.ErrLogJoinFailed
+				setErr(errmsg.ErrLogJoinFailed)
 				return
 			}
 
 			if inErr := l.AccessController.CanAppend(e, l.Identity.Provider, &CanAppendContext{log: l}); inErr != nil {
-				err = inErr
+				setErr(inErr)
 				return
 			}
 
 			if inErr := e.Verify(l.Identity.Provider, l.IO()); inErr != nil {
-				err = errmsg.ErrSigNotVerified.Wrap(inErr)
+				setErr(errmsg.ErrSigNotVerified.Wrap(inErr))
 				return
 			}
 		}(k)
